@@ -31,8 +31,8 @@ def make_configs(tier, which="all"):
     kinds = ["gibbs", "metropolis", "pca"]
     for kind in kinds:
         for n in (1, 2):
-            for mode in ("free", "box", "nonneg"):
-                if kind == "pca" and mode == "nonneg":
+            for mode in ("free", "box", "nonneg", "boxnn"):
+                if kind == "pca" and mode in ("nonneg", "boxnn"):
                     continue
                 for T in (1, 2, 4):
                     for tab in ("tent", "wells"):
@@ -41,11 +41,13 @@ def make_configs(tier, which="all"):
                             if (cid + T + (0 if tab == "tent" else 1)) % 3 != 0:
                                 cid += 1
                                 continue
-                        blo, bhi = (-2, 3) if mode == "box" else (0, 0)
+                        blo, bhi = (-2, 3) if mode in ("box", "boxnn") else (0, 0)
                         if mode == "free":
                             pts = [-2, 0, 1, 3]
                         elif mode == "box":
                             pts = [-2, 0, 3]
+                        elif mode == "boxnn":
+                            pts = [0, 1, 3]
                         else:
                             pts = [0, 1, 4]
                         starts = [[p] for p in pts] if n == 1 else [[pts[0], pts[-1]], [pts[1], pts[1]], [pts[-1], pts[0]]]
@@ -132,6 +134,9 @@ def build_chain(c, start, log, dtype=float):
             if c["mode"] == "box":
                 ch.set_boundaries(i, (float(c["blo"]), float(c["bhi"])))
             elif c["mode"] == "nonneg":
+                ch.set_non_negative(i, True)
+            elif c["mode"] == "boxnn":
+                ch.set_boundaries(i, (float(c["blo"]), float(c["bhi"])))
                 ch.set_non_negative(i, True)
     freeze_adaptation(ch)
     return ch, post
